@@ -18,7 +18,6 @@ import (
 	"github.com/named-data/ndnd/fw/core"
 	defn "github.com/named-data/ndnd/fw/defn"
 	"github.com/named-data/ndnd/fw/face/impl"
-	"github.com/named-data/ndnd/std/utils"
 )
 
 // UnicastTCPTransport is a unicast TCP transport.
@@ -53,7 +52,7 @@ func MakeUnicastTCPTransport(
 	// Construct transport
 	t := new(UnicastTCPTransport)
 	t.makeTransportBase(remoteURI, localURI, persistency, defn.NonLocal, defn.PointToPoint, defn.MaxNDNPacketSize)
-	t.expirationTime = utils.IdPtr(time.Now().Add(tcpLifetime))
+	t.setExpirationTime(time.Now().Add(tcpLifetime))
 	t.rechan = make(chan bool, 1)
 
 	// Set scope
@@ -113,7 +112,7 @@ func AcceptUnicastTCPTransport(
 	// Construct transport
 	t := new(UnicastTCPTransport)
 	t.makeTransportBase(remoteURI, localURI, persistency, defn.NonLocal, defn.PointToPoint, defn.MaxNDNPacketSize)
-	t.expirationTime = utils.IdPtr(time.Now().Add(tcpLifetime))
+	t.setExpirationTime(time.Now().Add(tcpLifetime))
 	t.rechan = make(chan bool, 1)
 
 	var success bool
@@ -247,7 +246,7 @@ func (t *UnicastTCPTransport) sendFrame(frame []byte) {
 	}
 
 	t.nOutBytes += uint64(len(frame))
-	*t.expirationTime = time.Now().Add(tcpLifetime)
+	t.setExpirationTime(time.Now().Add(tcpLifetime))
 }
 
 func (t *UnicastTCPTransport) runReceive() {
@@ -259,7 +258,7 @@ func (t *UnicastTCPTransport) runReceive() {
 		if t.conn != nil {
 			err := readTlvStream(t.conn, func(b []byte) {
 				t.nInBytes += uint64(len(b))
-				*t.expirationTime = time.Now().Add(tcpLifetime)
+				t.setExpirationTime(time.Now().Add(tcpLifetime))
 				t.linkService.handleIncomingFrame(b)
 			}, nil)
 			if err == nil || t.closed.Load() {
